@@ -30,7 +30,7 @@ Definition wf_lvl (k : keylvl) : bool :=
 
 Definition wf_tab (t : otab) : bool :=
   forallb (fun e => match e with
-                    | (f, k, i, r) => (1 <=? f) && (f <=? 18) && is_bytes k && (i <? DIVERSIFIER_SPACE)
+                    | (f, k, i, r) => (1 <=? f) && (f <=? 23) && is_bytes k && (i <? DIVERSIFIER_SPACE)
                                       && match r with OSome b => is_bytes b | _ => true end
                     end) t.
 
@@ -71,7 +71,7 @@ Definition usk_claim (t : otab) (k : usk) (b : bytes) : bool :=
   bytes_eqb b (usk_to_bytes k)
   && ores_isb (look_ores t 10 (usk_o k) 0) (usk_o k) && ores_isb (look_ores t 11 (usk_s k) 0) (usk_s k)
   && ores_isb (look_ores t 12 (usk_t k) 0) (usk_t k)
-  && is_some (look_opt t 6 (look_bytes t 3 (usk_t k) 0) 0).
+  && is_some (look_opt t 23 (usk_t k) 0).
 Definition ufvk_claim (t : otab) (net : N) (k : ufvk) (i : dinput) : bool :=
   match i with
   | Bech hrp (Some raw) => outcome_eqb enc_eqb unit_eqb (ufvk_encode net k) (Ok (hrp, raw))
